@@ -51,7 +51,7 @@ PROPS["C14"] = {
                    "the same log entry 2000 times without blocking (busy loop on a dead session)."),
     "level_note": "Goroutines are attributed by creation site from a runtime stack dump restricted to the run's synctest bubble; sockets are simnet endpoints. CPU use is judged by the spin detector (logging loops) and the orchestrator's watchdog (silent loops), not by timing.",
     "tiers": {
-        "quick": {"runs": 4000, "chunk": 80, "shrink_s": 40},
+        "quick": {"runs": 8000, "chunk": 80, "shrink_s": 40},
         "thorough": {"runs": 30000, "chunk": 100, "shrink_s": 120},
     },
 }
@@ -83,7 +83,7 @@ PROPS["C03"] = {
                    "target (identified by PRF stream content, so a wrong target is named) or be refused with end-of-stream/reset and no data; every target's accept count must equal the predicted multiset."),
     "level_note": "Fault-free network class only. Requested names are what the client's listener flag syntax can express (it trims surrounding blanks). Duplicate channel names are not generated (the property does not define them).",
     "tiers": {
-        "quick": {"runs": 12000, "chunk": 300, "shrink_s": 40},
+        "quick": {"runs": 24000, "chunk": 300, "shrink_s": 40},
         "thorough": {"runs": 200000, "chunk": 500, "shrink_s": 120},
     },
 }
@@ -102,7 +102,7 @@ PROPS["C15"] = {
                    "well-behaved client must complete handshake and a 1 KiB exchange within 60 simulated seconds of connecting while the stalled peers remain connected."),
     "level_note": "Stallers are harness goroutines speaking the real transports (raw sockets, real TLS client, real gorilla websocket client, real KCP session, real DNS-tunnel client handshake). No bound is applied to the stallers themselves.",
     "tiers": {
-        "quick": {"runs": 87 * 20, "chunk": 87, "shrink_s": 40},
+        "quick": {"runs": 87 * 60, "chunk": 87, "shrink_s": 40},
         "thorough": {"runs": 87 * 1000, "chunk": 348, "shrink_s": 120},
     },
 }
@@ -139,7 +139,7 @@ PROPS["C05"] = {
                    "(no requirement or client certificate of the server's CA); UDP admits iff secrets equal. On reject no target may accept a connection or receive a byte; on admit a 64-byte exchange must complete."),
     "level_note": "PKI generated deterministically at worker start for the simulated epoch 2000-01-01; 'expired' is produced by the simulated clock. The documented stdio+tls exception is not part of the matrix.",
     "tiers": {
-        "quick": {"runs": 675 * 6, "chunk": 225, "shrink_s": 30},
+        "quick": {"runs": 675 * 24, "chunk": 225, "shrink_s": 30},
         "thorough": {"runs": 675 * 200, "chunk": 675, "shrink_s": 90},
     },
 }
@@ -179,7 +179,7 @@ PROPS["C04"] = {
                    "must never let a plaintext client reach a target. Control cells (legitimately plaintext sessions) must show the payload on the wire, which validates the observer."),
     "level_note": "Server-side StartTLS state is observed through the server's own log line; client-side state through ClientConnection.Secure()/SecurityTech() (reached with an injected accessor in the scratch copy only). The scripted server runs real smux + multistream after its fake handshake so that a wrongly trusting client would really send data.",
     "tiers": {
-        "quick": {"runs": 120 * 40, "chunk": 120, "shrink_s": 30},
+        "quick": {"runs": 120 * 160, "chunk": 120, "shrink_s": 30},
         "thorough": {"runs": 120 * 1500, "chunk": 1200, "shrink_s": 90},
     },
 }
@@ -218,7 +218,7 @@ PROPS["C07"] = {
                    "no Write may fail and the connection must stay open (losses absorbed by retransmission)."),
     "level_note": "Starting sequence numbers are installed through an accessor injected into the scratch copy only, before any packet or acknowledgement is exchanged. Queue-level runs replace the DNS transport by the driver; connection-level runs use the real transport code over simnet datagrams.",
     "tiers": {
-        "quick": {"runs": 7200, "chunk": 200, "shrink_s": 40, "stall_s": 300},
+        "quick": {"runs": 21600, "chunk": 200, "shrink_s": 40, "stall_s": 300},
         "thorough": {"runs": 80000, "chunk": 300, "shrink_s": 120, "stall_s": 300},
     },
 }
@@ -237,7 +237,7 @@ PROPS["C11"] = {
                    "over the same path must arrive intact (PRF prefix/equality) and completely within 40 simulated minutes; a handshake error is an allowed outcome."),
     "level_note": "The path model transforms whole messages (names, sections, sizes); it does not model resolver caching or recursion delays. Handshake failure on a hostile path is never a violation.",
     "tiers": {
-        "quick": {"runs": 30000, "chunk": 150, "shrink_s": 40, "stall_s": 300},
+        "quick": {"runs": 60000, "chunk": 150, "shrink_s": 40, "stall_s": 300},
         "thorough": {"runs": 600000, "chunk": 250, "shrink_s": 120, "stall_s": 300},
     },
 }
@@ -258,7 +258,7 @@ PROPS["C12"] = {
                    "genuine answer, completion is not demanded, integrity is)."),
     "level_note": "Allocation is measured as the TotalAlloc delta across one quiescence phase with the collector off. Queries the miekg accept function rejects (QR bit, opcode, question count) never reach socketace, as in production.",
     "tiers": {
-        "quick": {"runs": 4000, "chunk": 125, "shrink_s": 30, "stall_s": 300},
+        "quick": {"runs": 12000, "chunk": 125, "shrink_s": 30, "stall_s": 300},
         "thorough": {"runs": 60000, "chunk": 200, "shrink_s": 90, "stall_s": 300},
     },
 }
@@ -277,7 +277,7 @@ PROPS["C13"] = {
                    "exchanges data continuously is never terminated by another session's close or expiry, including after its identifier slot was reused."),
     "level_note": "The spoofer is given the victim's negotiated codec parameters (worst case). Sessions sharing one source address are not modelled (a UDP socket pair identifies a session).",
     "tiers": {
-        "quick": {"runs": 360, "chunk": 15, "shrink_s": 60, "stall_s": 400},
+        "quick": {"runs": 720, "chunk": 15, "shrink_s": 60, "stall_s": 400},
         "thorough": {"runs": 6000, "chunk": 50, "shrink_s": 180, "stall_s": 400},
     },
 }
